@@ -13,7 +13,7 @@ CFG = {'assumptions': ['f64 inputs cross the boundary as bit patterns and are de
                  'pop/sift_down_to_bottom) for the pinned toolchain; the proved theorems do not depend on which '
                  'minimal entry is popped first'],
  'count': {'quick': 20000, 'thorough': 800000},
- 'lean_files': ['GeoModel/Simplify.lean', 'GeoModel/Ops/C09.lean'],
+ 'lean_files': ['GeoModel/Simplify.lean', 'GeoModel/Ops/C09.lean', 'GeoProofs/Lemmas/C09Rdp.lean', 'GeoProofs/Lemmas/C09Vw.lean'],
  'rule': 'random LineString / MultiLineString / Polygon / MultiPolygon (0-28 vertices per component; random grid '
          'points, zig-zags, collinear runs with bumps, back-tracking walks, forced repeats, wide 2^20 coordinates; '
          'closed line strings; rings at the 4-coordinate limit, open rings closed by the constructor) x '
